@@ -32,6 +32,10 @@ This module ties the model to the real server over TCP:
   sandbox   `os`, `io`, `loadfile`, … must be nil / raise; SAVE-like stubs must not touch the disk.
   atomic    writers running a two-INCR script against readers doing MGET: the two counters never differ.
 
+  reply-depth  return values that are cyclic (self, mutual, via a metatable) or nested around the limit / 5000 deep / wide and deep, by EVAL,
+            EVALSHA and inside EXEC, on a dedicated capped server: the reply is what the model's `luaToRespD` predicts (the error beyond the
+            limit), parses with the project's own parser (harness impl_resp), the server lives, earlier effects persist.  Without a limit in
+            the source (Gen.luaReplyDepthLimit = 0) only ONE witness is sent, to a throw-away capped server (the finding).
   time-limit  ONLY when the source installs a run-time limit (Gen.luaScriptTimeLimit > 0, re-read on every run): non-terminating
             scripts (plain, after writes, with pcall, in coroutines, by EVALSHA), each on a dedicated server: error reply within
             the limit + slack, earlier effects in place, server alive and serving; a long finite script is undisturbed.
@@ -2248,6 +2252,153 @@ def layer_time_limit(ck):
     rep.extra["time_limit_cases"] = {o["case"]: o.get("seconds") for o in results}
 
 
+# ----------------------------------------------------------------------------------------------------
+# the depth of a script's return value: cyclic and deeply nested tables
+# ----------------------------------------------------------------------------------------------------
+def encode_reply(r):
+    """RESP bytes of a reply tuple (what the server put on the wire for it)"""
+    t = r[0]
+    if t == "s":
+        return b"+" + r[1] + b"\r\n"
+    if t == "e":
+        return b"-" + r[1] + b"\r\n"
+    if t == "i":
+        return b":%d\r\n" % r[1]
+    if t == "b":
+        return b"$%d\r\n%s\r\n" % (len(r[1]), r[1])
+    if t == "nb":
+        return b"$-1\r\n"
+    if t == "na":
+        return b"*-1\r\n"
+    return b"*%d\r\n" % len(r[1]) + b"".join(encode_reply(x) for x in r[1])
+
+
+def chain(n, leaf):
+    """a table with n further tables below it (nest = n, or n + 1 with a leaf value in the innermost one): (Lua source, value)"""
+    src = "local r={} local t=r for i=1,%d do t[1]={} t=t[1] end %sreturn r" % (n, "t[1]=7 " if leaf else "")
+    # the value in the driver's syntax, written out directly (5000 levels are too deep for a recursive Python value)
+    v = "( tbl " * n + ("( tbl ( int 7 ) )" if leaf else "( tbl )") + " )" * n
+    return src, v
+
+
+def reply_depth_cases(limit):
+    """(tag, Lua source, value for the model or None = cyclic: must be the error)"""
+    out = []
+    for n in (limit - 2, limit - 1, limit, limit + 1, limit + 2, 5000):
+        s_, v = chain(n, False)
+        out.append(("chain-%s.empty-innermost" % ("5000" if n == 5000 else "limit%+d" % (n - limit)), s_, v))
+        s_, v = chain(n, True)
+        out.append(("chain-%s.leaf" % ("5000" if n == 5000 else "limit%+d" % (n - limit)), s_, v))
+
+    def mk(d):
+        return ("int", 1) if d == 0 else ("tbl", [mk(d - 1) for _ in range(3)])
+    out.append(("wide-and-deep.3^7", "local function mk(d) if d==0 then return 1 end local t={} for i=1,3 do t[i]=mk(d-1) end return t end return mk(7)", mk(7)))
+    for n in (limit - 1, limit + 1):
+        src = "local r={1,2} local t=r for i=1,%d do t[3]={1,2} t=t[3] end return r" % n
+        v = "( tbl ( int 1 ) ( int 2 ) " * n + "( tbl ( int 1 ) ( int 2 ) )" + " )" * n
+        out.append(("wide-chain-limit%+d" % (n - limit), src, v))
+    out.append(("deep-behind-nil.not-looked-at", "local r={1,nil} local t={} r[3]=t for i=1,%d do t[1]={} t=t[1] end return r" % (limit + 50),
+                ("tbl", [("int", 1), ("nil",)])))
+    out += [("cyclic.self", "local t={} t[1]=t return t", None), ("cyclic.self-second-element", "local t={1} t[2]=t return t", None),
+            ("cyclic.mutual", "local a,b={},{} a[1]=b b[1]=a return a", None), ("cyclic.three", "local a,b,c={},{},{} a[1]=b b[1]=c c[2]=a c[1]=1 return a", None),
+            ("cyclic.metatable-index", "local t={} setmetatable(t,{__index=function(_,i) return t end}) return t", None),
+            ("cyclic.inside-finite", "local t={} t[1]=t return {1,{2,t}}", None)]
+    return out
+
+
+def layer_reply_depth(ck):
+    """cyclic / deep return values, each batch on a dedicated address-space-capped server (never the shared ones): the reply is the
+    conversion or the error the model predicts, parses with the project's own parser, the server lives, earlier effects persist"""
+    rep = ck.rep
+    limit = ck.facts.get("reply_depth_limit")
+    rep.extra["script_reply_depth_limit"] = limit
+    if limit is None:
+        raise InternalError("reply-depth fact not recognised (translator/lua_tables.py)")
+    if limit == 0:
+        # no limit in the source: a cyclic table recurses until the stack overflows.  One witness, on a throw-away capped server.
+        srv = Server("c12y", preexec_fn=cap_address_space)
+        try:
+            c = srv.client()
+            c.cmd("SET", "before", "1")
+            try:
+                got = c.cmd("EVAL", "local t={} t[1]=t return t", "0", timeout=8.0)
+                died = False
+            except (Closed, TimeoutError, ProtocolError, OSError):
+                time.sleep(0.4)
+                got, died = None, True
+            rep.evaluations += 1
+            det = {"layer": "reply-depth", "script": "local t={} t[1]=t return t", "reply": str(got)[:200], "server_alive": srv.alive(), "server_log": srv.log_tail(300)}
+            rep.nontrivial(("reply-depth-witness", died))
+            if died or not srv.alive():
+                if not ck.note_known("crash:reply-depth-unbounded", det):
+                    ck.fail("reply-depth", "a script that returns a table containing itself takes the server down (unbounded recursion in lua_value_to_resp)", det)
+            elif not (got and got[0] == "e"):
+                ck.fail("reply-depth", "a cyclic table was answered with something else than an error although the source has no depth limit", det)
+        finally:
+            srv.stop()
+        return
+    ck.ask("cfg depthlimit %d" % limit, "ok")
+    build_harness("resp")
+    parser = impl_driver("resp")
+    cases = reply_depth_cases(limit)
+    srv = Server("c12y", preexec_fn=cap_address_space)
+    dist = {}
+    try:
+        c, c2 = srv.client(timeout=15.0), srv.client()
+        for tag, body, val in cases:
+            if val is None:
+                want = ("e", b"")
+            else:
+                want = parse_sexpr(ck.ask("ret " + (val if isinstance(val, str) else drv_val(val))).split(" # ")[0])
+            src = "redis.call('INCR','done') " + body
+            sha = hashlib.sha1(src.encode()).hexdigest()
+            for runner in ("EVAL", "EVALSHA", "EVAL-inside-EXEC", "EVALSHA-inside-EXEC"):
+                dist[tag.split(".")[0] + "." + runner] = dist.get(tag.split(".")[0] + "." + runner, 0) + 1
+                rep.count("reply-depth.%s.%s" % (tag, runner))
+                c2.cmd("FLUSHALL")
+                det = {"layer": "reply-depth", "case": tag, "runner": runner, "script": src[:300], "reply_depth_limit": limit, "model_predicts": show(want)[:200]}
+                try:
+                    if runner.startswith("EVALSHA"):
+                        c.cmd("SCRIPT", "LOAD", src)
+                    inner = ["EVALSHA", sha, "0"] if runner.startswith("EVALSHA") else ["EVAL", src, "0"]
+                    if runner.endswith("EXEC"):
+                        c.cmd("MULTI")
+                        c.cmd(*inner)
+                        whole = c.cmd("EXEC")
+                        got = whole[1][0] if whole[0] == "a" and len(whole[1]) == 1 else ("bad-exec-reply", whole)
+                    else:
+                        whole = got = c.cmd(*inner)
+                except (Closed, TimeoutError, ProtocolError, OSError, RecursionError) as e:
+                    time.sleep(0.4)
+                    det.update({"reply": "no reply: " + type(e).__name__, "server_alive": srv.alive(), "server_log": srv.log_tail(300)})
+                    ck.fail("reply-depth", "no reply to a script returning a deep / cyclic table (%s, %s)" % (tag, runner), det)
+                    if not srv.alive():
+                        srv.stop()
+                        srv = Server("c12y", preexec_fn=cap_address_space)
+                    c, c2 = srv.client(timeout=15.0), srv.client()
+                    continue
+                rep.evaluations += 1
+                rep.nontrivial(("reply-depth", tag, runner, got[0]))
+                bad = []
+                if show(norm(got)) != show(want):
+                    bad.append("the reply is not what the model predicts")
+                pr = parser.ask("parse " + hx(encode_reply(whole)))
+                if pr is None or not pr.startswith("ok "):
+                    bad.append("the reply does not parse with the project's own parser (%s)" % (pr or "parser died")[:40])
+                if c2.cmd("GET", "done") != ("b", b"1"):
+                    bad.append("the effect of the call made before the return did not persist")
+                if c2.cmd("PING") != ("s", b"PONG") or not srv.alive():
+                    bad.append("the server does not serve afterwards")
+                if bad:
+                    det.update({"reply": show(norm(got))[:300], "problems": bad})
+                    ck.fail("reply-depth", "%s (%s, %s)" % ("; ".join(bad), tag, runner), det)
+        rep.extra["reply_depth_cases"] = dict(sorted(dist.items()))
+    finally:
+        ck.ask("cfg depthlimit 0", "ok")
+        parser.close()
+        srv.stop()
+
+
 def layer_crash_witness(ck):
     """the one known way to take the server down from a script (a script-only command): replayed on a throw-away server"""
     f = ck.findings.get("crash:bitcount-empty")
@@ -2334,7 +2485,7 @@ def main(tier, seed):
     r = Rng(seed)
     try:
         q = tier == "quick"
-        layer_twin(ck, r, 150 if q else 1800, 30 if q else 40)
+        layer_twin(ck, r, 120 if q else 1800, 30 if q else 40)
         layer_programs(ck, r, 80 if q else 1000, 16 if q else 30)
         layer_script_cache(ck, r)
         layer_third_parties(ck)
@@ -2342,6 +2493,7 @@ def main(tier, seed):
         layer_sandbox(ck)
         layer_atomic(ck, 3, 150 if q else 1500)
         layer_crash_witness(ck)
+        layer_reply_depth(ck)
         layer_time_limit(ck)
         rep.extra["conversion_switches_seen_in_source"] = ck.quirks
         verdict(ck, ok, log, errs)
